@@ -1,5 +1,5 @@
 import Driver.Crdt
-import AmVerif.Model.Store
+import AmVerif.Model.StoreLocal
 /- Extension of the `crdt` driver engine: commands `crdt.st.*` (concrete op store, M4) on the same per-case state. -/
 namespace Driver.CrdtStore
 open AmVerif AmVerif.Crdt AmVerif.Wire Driver.Crdt
@@ -14,28 +14,48 @@ def storeOf (st : State) (r : String) : Option Store :=
       | some s => match insertRemoteO w s o with | .ok s' => some s' | _ => none)
     (some [])
 
-def hasPending (st : State) (r : String) : Bool :=
+def pendingOps (st : State) (r : String) : List Op :=
   match st.txs.find? (fun p => p.1 == r) with
-  | some (_, t) => !t.pending.isEmpty
-  | none => false
+  | some (_, t) => t.pending
+  | none => []
+
+/-- the model store inside an open transaction: the committed store, then the pending ops through the
+    LOCAL path (`insertLocal`), with the undo records `rollback` would use -/
+def storeWithTx (st : State) (r : String) : Option (Store × Store × List LocalUndo) :=
+  match storeOf st r with
+  | none => none
+  | some base =>
+    let w := opWidth st.enc true
+    let l := insertLocalAll w base (pendingOps st r)
+    some (base, l.1, l.2)
 
 def exec (st : State) (toks : List String) : State × List String :=
   match toks with
-  -- the rows of the op store with successor lists and the three index columns; `idx=` says whether
-  -- the incrementally maintained columns equal their from-scratch definition
+  -- the rows of the op store with successor lists and the three index columns.  `idx=`: the
+  -- incrementally maintained columns equal their from-scratch definition.  Inside an open transaction
+  -- the pending ops went through the local path; `lr=`: the same ops through `insertRemote` give the
+  -- same store (C03); `rb=`: undoing them with their undo records gives back the committed store (C28);
+  -- `lp=`: the pending ops satisfy the hypotheses of `C03_store_local_eq_remote` (greatest id, `LocalPreds`)
   | ["crdt.st.dump", r] =>
-    if hasPending st r then (st, ["pending"]) else
-    match storeOf st r with
+    match storeWithTx st r with
     | none => (st, ["panic"])
-    | some s =>
+    | some (base, s, undo) =>
       let w := opWidth st.enc true
-      (st, [s!"{showStore s} idx={if indexOk w s then "ok" else "BAD"}"])
+      let pend := pendingOps st r
+      let tail :=
+        if pend.isEmpty then "" else
+          let remote := pend.foldl (insertRemote w) base
+          s!" lr={if remote == s then "ok" else "DIFF"} rb={if undoAll undo s == base then "ok" else "DIFF"} lp={if localTxOkB w base pend then "ok" else "NO"}"
+      (st, [s!"{showStore s} idx={if indexOk w s then "ok" else "BAD"}{tail}"])
+  -- direct-oracle commands of the harness (the implementation alone)
+  | ["crdt.st.snap", _] => (st, ["ok"])
+  | ["crdt.st.rbcheck", _] => (st, ["ok"])
   -- the document read from the store rows only
   | ["crdt.st.state", r] =>
-    if hasPending st r then (st, ["pending"]) else
-    match storeOf st r with
+    match storeWithTx st r with
     | none => (st, ["panic"])
-    | some s => (st, [storeShowDoc s (((getReplica st r).applied.flatMap (·.ops)).length + 1)])
+    | some (_, s, _) =>
+      (st, [storeShowDoc s (((getReplica st r).applied.flatMap (·.ops)).length + (pendingOps st r).length + 1)])
   -- the hypotheses of the refinement theorems (`Admissible`, `PredsOk`) evaluated on the op list of the
   -- replica in application order: every history the library makes must satisfy them
   | ["crdt.st.adm", r] =>
